@@ -77,8 +77,8 @@ pub fn spec_code(set: u8) -> u8 {
 // NOTE: all flags live in ONE static struct with a non-zero magic field. Separate `static mut X: usize = 0`
 // items were observed to alias, under Kani 0.68, with promoted constants of the same bytes (writing 1 to
 // such a static turned the shared zero-capacity constant of `Vec::new()` into 1).
-struct Stubs { magic: u64, io: bool, save_calls: usize, rec_distance: bool, exp_constant: f64, exp_rows: usize, provider: bool }
-static mut ST: Stubs = Stubs { magic: 0x5ca1_ab1e_0dd_ba11, io: false, save_calls: 0, rec_distance: false, exp_constant: -1.0, exp_rows: 0, provider: false };
+struct Stubs { magic: u64, io: bool, save_calls: usize, rec_distance: bool, exp_constant: f64, exp_rows: usize, provider: bool, writer_off: bool, entries: [(u64, u8); 32] }
+static mut ST: Stubs = Stubs { magic: 0x5ca1_ab1e_0dd_ba11, io: false, save_calls: 0, rec_distance: false, exp_constant: -1.0, exp_rows: 0, provider: false, writer_off: false, entries: [(7, b'A'); 32] };
 pub fn stub_io(on: bool) { unsafe { ST.io = on; ST.save_calls = 0; } }
 pub fn stub_io_active() -> bool { unsafe { ST.magic == 0x5ca1_ab1e_0dd_ba11 && ST.io } }
 pub fn record_save() { unsafe { ST.save_calls += 1; } }
@@ -97,3 +97,10 @@ pub fn record_distance(constant: f64, rows: usize) {
 }
 pub fn dict_provider(on: bool) { unsafe { ST.provider = on; } }
 pub fn dict_provider_active() -> bool { unsafe { ST.provider } }
+/// dictionary provider standing in for `SkaDict::new` (file parsing is C01's subject, not C11's): sample i
+/// gets the single entry registered here
+pub fn provide_entry(i: usize, kmer: u64, base: u8) { unsafe { ST.entries[i] = (kmer, base); } }
+pub fn provided_entry(i: usize) -> (u64, u8) { unsafe { ST.entries[i] } }
+/// switch the alignment writer off (C11.pool only: the writer is C04's subject and its loops dominate the cost)
+pub fn writer_stub(on: bool) { unsafe { ST.writer_off = on; } }
+pub fn writer_stub_active() -> bool { unsafe { ST.writer_off } }
